@@ -9,6 +9,8 @@ package query
 //verif:harness VerifC01InterruptedFormats mode=bv tier=quick split=6
 //verif:setup VerifC01KindsSetup
 //verif:harness VerifC01ChangeKinds mode=bv tier=quick split=6
+//verif:setup VerifC01HeaderlessSetup
+//verif:harness VerifC01Headerless mode=bv tier=quick split=4
 
 import (
 	"github.com/mithrandie/csvq/lib/parser"
@@ -433,4 +435,75 @@ func wantFileOr(ti int, wantFile, old string) string {
 		return old
 	}
 	return wantFile
+}
+
+var verifC01HlSrc = []string{
+	"delete from n;",                                  // a table without header line emptied
+	"update h set c2 = 'z' where c1 = '1'; delete from n;", // another table changed before it
+	"delete from n where c1 = '1';",                   // not emptied
+	"create table `new.csv` (a, b);",                  // created without header line, no record
+	"create table `new.csv` (a, b); insert into `new.csv` values (1, 2);",
+	"insert into n values ('5', '6'); delete from n;",
+	"update h set c2 = 'z' where c1 = '1'; alter table h set header to false; delete from h;",
+}
+var verifC01HlProgs [][]parser.Statement
+
+func VerifC01HeaderlessSetup() {
+	for _, s := range verifC01HlSrc {
+		verifC01HlProgs = append(verifC01HlProgs, verifParse(s))
+	}
+}
+
+// Procedures on tables that are read and written without a header line (--no-header / --without-header,
+// ALTER TABLE SET HEADER), among them ones that leave such a table without any record - a state csvq
+// may refuse to write ("data empty").  Whichever way the run ends: reported success means every file
+// holds what the procedure last saw; a reported failure means every file is as before and created
+// files do not exist.
+func VerifC01Headerless() {
+	const oldN, oldH = "1,a\n2,b\n", "1,p\n2,q\n"
+	verifFileWrite("n.csv", oldN)
+	verifFileWrite("h.csv", oldH)
+	tx := verifNewTx()
+	tx.Flags.Quiet = true
+	tx.Flags.ImportOptions.NoHeader = true
+	tx.Flags.ExportOptions.WithoutHeader = true
+	tx.AutoCommit = true
+	proc := NewProcessor(tx)
+	pi := verifChoice("program", len(verifC01HlSrc))
+	_, err := proc.Execute(verifCtx(), verifC01HlProgs[pi])
+	e1 := proc.AutoRollback()
+	e2 := proc.ReleaseResourcesWithErrors()
+	verifAssert("rollback and release succeed", e1 == nil && e2 == nil)
+	n, h := verifFileRead("n.csv"), verifFileRead("h.csv")
+	if err != nil {
+		verifAssert("a failed run leaves every table as it was", n == oldN && h == oldH)
+		verifAssert("a failed run leaves no created file", !verifFileExists("new.csv"))
+		verifAssert("no control files remain", verifFileList() == "h.csv\nn.csv")
+		verifObserveBool("failed", true)
+		verifReach("failed")
+		return
+	}
+	wantN, wantH, wantNew, newExists := oldN, oldH, "", false
+	switch pi {
+	case 0, 5:
+		wantN = ""
+	case 1:
+		wantN, wantH = "", "1,z\n2,q\n"
+	case 2:
+		wantN = "2,b\n"
+	case 3:
+		newExists = true
+	case 4:
+		wantNew, newExists = "1,2\n", true
+	case 6:
+		wantH = ""
+	}
+	verifAssert("a successful run: n.csv holds what the procedure last saw", n == wantN)
+	verifAssert("a successful run: h.csv holds what the procedure last saw", h == wantH)
+	verifAssert("a successful run: the created file exists iff it was created", verifFileExists("new.csv") == newExists)
+	if newExists && verifFileExists("new.csv") {
+		verifAssert("a successful run: the created file holds what the procedure last saw", verifFileRead("new.csv") == wantNew)
+	}
+	verifObserveBool("failed", false)
+	verifReach("end")
 }
